@@ -26,8 +26,8 @@ def _alarm(_s, _f):
 
 def guarded(fn, limit_s=10.0):
     """Run fn() under a timer; returns ("ok", value) | ("ypath"| "crash:<T>" | "timeout", site, exc)."""
-    old = signal.signal(signal.SIGALRM, _alarm)
-    signal.setitimer(signal.ITIMER_REAL, limit_s)
+    old = signal.signal(signal.SIGVTALRM, _alarm)
+    signal.setitimer(signal.ITIMER_VIRTUAL, limit_s)
     try:
         return ("ok", fn())
     except Timeout:
@@ -37,8 +37,8 @@ def guarded(fn, limit_s=10.0):
     except Exception as e:  # noqa
         return (core.exc_class(e), core.crash_site(e), e)
     finally:
-        signal.setitimer(signal.ITIMER_REAL, 0)
-        signal.signal(signal.SIGALRM, old)
+        signal.setitimer(signal.ITIMER_VIRTUAL, 0)
+        signal.signal(signal.SIGVTALRM, old)
 
 
 # --------------------------------------------------------------------------- documents
